@@ -31,6 +31,8 @@ TNext ==
        [] e.ev \in {"Write", "Flush", "Close"} -> Call(e) /\ Rec(Failed(e))
        [] e.ev = "Cmp"   -> UNCHANGED cvars /\ Rec(CmpFailed(e))
        [] e.ev = "Ctor"  -> UNCHANGED cvars /\ Rec(CtorFailed(e))
+       \* mechanism events of the compressor (hooks): judged by DynMechTrace, not by the contract
+       [] e.ev = "Mech"  -> UNCHANGED <<cvars, viol, noted>>
        \* the worker process died or hung inside this case (recorded by the driver)
        [] e.ev \in {"Crash", "Hang"} -> UNCHANGED cvars /\ RecBegin({"C16.nopanic", "C14.nopanic_on_failure", "C01.nocrash"})
 
